@@ -316,8 +316,9 @@ class ConstraintComponent(object, metaclass=abc.ABCMeta):
         else:
             return msg
         for var, val in fdict.items():
-            substring = "{{[?$]{}}}".format(var)
-            msg = re.sub(substring, str(val), msg)
+            substring = "{{[?$]{}}}".format(re.escape(var))
+            # a function as replacement: the bound value is data, not a regex replacement template
+            msg = re.sub(substring, lambda _m, _val=val: str(_val), msg)
         return msg
 
 
